@@ -141,6 +141,10 @@ def pair(cfg, rng):
 
 def amount(cfg, rng):
     """family 8: shift / rotate / exponent amounts as u32"""
+    return max(0, min((1 << 32) - 1, _amount(cfg, rng)))
+
+
+def _amount(cfg, rng):
     b = cfg.bits
     d = cfg.dbits
     r = rng.random()
